@@ -302,6 +302,7 @@ func checkC18(c *Check) {
 			}
 			c.Ob("random/recursion-has-exit", nm, m <= 2, scc[0].Pos, "["+co+"] "+fmt.Sprintf("cycle %s is left only by coin flips that are not switched off at the depth limit (or is not depth-bracketed); one activation makes up to %d recursive calls, each with probability about 1/2: mean offspring %.1f — above 1 the recursion does not terminate with positive probability", nm, m, float64(m)/2))
 		}
+		natArgAgreement(c, g, "random/nat-arguments-as-in-writer", "WriteTL1", []string{"FillRandom", "RepairMasks"})
 		c.Ob("random/recursion-has-exit", co+":call-graph", true, "", fmt.Sprintf("%d FillRandom functions, %d call edges, %d recursive components", len(nodes), len(edges), len(all)))
 	})
 	// basictl
@@ -362,6 +363,7 @@ func checkC18(c *Check) {
 		}
 	}
 	c.Set("ungated_or_unbracketed_cycles", cycles)
+	c.Floor("random/nat-arguments-as-in-writer", 50)
 	c.Floor("random/only-generator-draws", 200)
 	c.Floor("random/depth-bracket-paired", 30)
 	c.Floor("random/mask-from-used-bits", 20)
